@@ -10,6 +10,7 @@ from __future__ import annotations
 
 import asyncio
 import hashlib
+import itertools
 import random
 from typing import Any, Iterable
 
@@ -96,9 +97,65 @@ async def converge_check(env: Any, hist: History, sessions: list[Session],
                 break
 
 
+class _RealLoop(asyncio.SelectorEventLoop):
+    """An ordinary event loop for the threaded slice (worker threads need
+    real wake-ups); ``steps`` only orders the transcripts."""
+    _ctr = itertools.count(1)
+
+    @property
+    def steps(self) -> int:
+        return next(self._ctr)
+
+    def quiescent(self) -> 'asyncio.Future[None]':
+        # all bursts are done and the maildir backend has no tasks of its own
+        fut = self.create_future()
+        self.call_soon(lambda: fut.done() or fut.set_result(None))
+        return fut
+
+
+def run_threaded(spec: dict[str, Any], hist: History,
+                 counters: dict[str, int]) -> None:
+    """The maildir backend as it is deployed: ``Config.parse_args`` always
+    gives it a thread pool, every command runs in a worker thread and
+    commands of different connections really overlap.  The schedule is the
+    operating system's, so a case is not reproducible; the oracle is the
+    ordinary one (views = mailbox after NOOPs) and sound for any schedule.  A
+    wall-clock watchdog makes the case inconclusive, never violated."""
+    from concurrent.futures import ThreadPoolExecutor
+    from pymap.concurrent import Subsystem
+    ex = ThreadPoolExecutor(spec.get('workers', 4))
+    loop = _RealLoop()
+    asyncio.set_event_loop(loop)
+    try:
+        loop.run_until_complete(asyncio.wait_for(run_history(
+            spec, hist, counters,
+            subsystem=Subsystem.for_threading(ex)), 120))
+        counters['threaded_histories'] = 1
+    except asyncio.TimeoutError:
+        hist.aborted = 'wall-clock-watchdog'
+    finally:
+        try:
+            tasks = [t for t in asyncio.all_tasks(loop) if not t.done()]
+            for t in tasks:
+                t.cancel()
+            if tasks:
+                loop.run_until_complete(asyncio.wait(tasks, timeout=5))
+        except Exception:
+            pass
+        ex.shutdown(wait=False, cancel_futures=True)
+        asyncio.set_event_loop(None)
+        loop.close()
+
+
 async def run_history(spec: dict[str, Any], hist: History,
-                      counters: dict[str, int]) -> None:
-    env = await make_env(spec.get('backend', 'dict'))
+                      counters: dict[str, int],
+                      subsystem: Any = None) -> None:
+    if subsystem is not None:
+        env = await make_env(spec.get('backend', 'maildir'),
+                             subsystem=subsystem)
+        env.config.apply_context()
+    else:
+        env = await make_env(spec.get('backend', 'dict'))
     loop = asyncio.get_event_loop()
     try:
         rng = random.Random(spec['seed'])
@@ -419,6 +476,17 @@ class C02(Check):
                    'rounds': rng.randint(1, 3),
                    'per_round': rng.randint(1, 5 if backend == 'dict' else 3),
                    'sched': schedule_family(rng, nsess)}
+        # maildir with its real worker threads (not reproducible, see
+        # run_threaded)
+        for i in range(160 if tier == 'quick' else 4000):
+            nsess = rng.choice([2, 3, 4])
+            yield {'kind': 'threaded', 'backend': 'maildir',
+                   'seed': seed * 1_000_003 + 700_000 + i, 'nsess': nsess,
+                   'nmsgs': rng.randint(3, 6), 'rounds': rng.randint(2, 4),
+                   'per_round': rng.choice([3, 6, 10]),
+                   'workers': rng.choice([2, 4, 8]),
+                   'sched': {'kind': 'timing', 'max_delay': 3,
+                             'max_drain': 2}}
         # maildir: another thread or process renames message files in the
         # two windows described above run_external()
         for i in range(200 if tier == 'quick' else 4000):
@@ -443,7 +511,10 @@ class C02(Check):
                 await run_history(spec, hist, extra)
 
         try:
-            L.run(main, max_steps=600_000)
+            if spec.get('kind') == 'threaded':
+                run_threaded(spec, hist, extra)
+            else:
+                L.run(main, max_steps=600_000)
         except L.Deadlock:
             hist.aborted = 'deadlock'
         counters = summarize(hist)
@@ -455,7 +526,10 @@ class C02(Check):
         # C01-owned mechanisms seen in passing are not C02 verdicts
         viol = [v for v in hist.violations if v['mech'] in (
             'stuck-phantom', 'lost-new-message', 'uid-set-diverged',
-            'lost-flag-update', 'probe-disagrees-with-backend-table')]
+            'lost-flag-update', 'probe-disagrees-with-backend-table')
+            # C01 has no slice with threads or external actors: a spurious
+            # EXPUNGE or a message re-inserted in mid-view is reported here
+            or spec.get('kind') in ('threaded', 'external')]
         other = [v['mech'] for v in hist.violations if v not in viol]
         if other and aborted is None and not viol:
             aborted = 'other-property:' + other[0]
